@@ -138,6 +138,7 @@ var props = map[string]propCfg{
 			{Engine: "family", Test: "TestC11", Inject: true, QuickChecks: 40000, ThoroughChecks: 40000},
 			{Engine: "family", Test: "TestC11", Inject: true, Fine: true, ThoroughOnly: true, ThoroughChecks: 30000},
 			{Engine: "race", Test: "TestC11Race", Race: true, Cpu: 4, QuickChecks: 2500, ThoroughChecks: 3000},
+			{Engine: "race", Test: "TestC11FirstUse", Race: true, Cpu: 4, QuickChecks: 24, ThoroughChecks: 150},
 		},
 		Real:   commonReal,
 		Stub:   []string{"caller-thread scheduler (cooperative) in the deterministic half; the Go runtime scheduler in the race half (real, not controlled: see DESIGN.md §2.4)", "scheduling points injected at loops of a scratch copy", "hash function and math/rand seed"},
